@@ -8,6 +8,7 @@ import (
 	"encoding/json"
 	"fmt"
 	"hash/fnv"
+	"io"
 	"os"
 	"runtime"
 	"runtime/debug"
@@ -48,6 +49,8 @@ type R struct {
 	notes      []string
 	replay     json.RawMessage
 	ended      bool
+	mergedNT   int64
+	mergedEval int64
 }
 
 // Begin starts a check run. level is one of exploration, fault_enumeration, model_checking.
@@ -195,11 +198,15 @@ func (r *R) Violations() int { r.mu.Lock(); defer r.mu.Unlock(); return len(r.vi
 // ToolError aborts the run as a machinery failure (never a verdict): exit status 2 through the runner.
 func (r *R) ToolError(format string, a ...any) {
 	msg := fmt.Sprintf(format, a...)
+	r.mu.Lock()
+	r.ended = true // End() must not overwrite the tool-error result
+	r.mu.Unlock()
 	if p := os.Getenv("VERIF_OUT"); p != "" {
 		b, _ := json.Marshal(map[string]any{"property_id": r.ID, "tool_error": msg})
 		os.WriteFile(p, b, 0o644)
 	}
-	r.t.Fatalf("TOOL-ERROR %s: %s", r.ID, msg)
+	fmt.Fprintf(os.Stderr, "TOOL-ERROR %s: %s\n", r.ID, msg)
+	os.Exit(2) // not t.Fatalf: that only ends the calling goroutine, and may be called from a Par worker
 }
 
 // Par runs f(i) for i in [0,n) on all cores. A panic inside f is a tool error unless the harness recovers it itself.
@@ -237,16 +244,19 @@ func (r *R) Par(n int, f func(i int)) {
 
 // End writes the result file read by the runner.
 func (r *R) End() {
+	r.mu.Lock()
 	if r.ended {
+		r.mu.Unlock()
 		return
 	}
 	r.ended = true
+	r.mu.Unlock()
 	cov := map[string]any{}
 	for k, v := range r.extra {
 		cov[k] = v
 	}
-	cov["evaluations"] = r.evals.Load()
-	cov["distinct_nontrivial"] = r.nontrivialCount()
+	cov["evaluations"] = r.evals.Load() + r.mergedEval
+	cov["distinct_nontrivial"] = int64(r.nontrivialCount()) + r.mergedNT
 	cov["rule"] = r.rule
 	cov["samples"] = r.samples
 	cov["exhaustive"] = r.exhaustive
@@ -280,3 +290,120 @@ func (r *R) End() {
 
 // Q quotes bytes for artefacts and signatures.
 func Q(b []byte) string { return strconv.QuoteToASCII(string(b)) }
+
+// TB returns the testing handle of the run.
+func (r *R) TB() testing.TB { return r.t }
+
+// MergeFile folds the result file written by a worker process (same check, disjoint share of the space) into r:
+// counters are summed, exhaustive flags and-ed, samples and caps concatenated, violation classes merged by sig.
+func (r *R) MergeFile(path string) error {
+	b, err := os.ReadFile(path)
+	if err != nil {
+		return err
+	}
+	var f struct {
+		ToolError string         `json:"tool_error"`
+		Coverage  map[string]any `json:"coverage"`
+		Viol      []*Violation   `json:"violation_list"`
+	}
+	dec := json.NewDecoder(bytesReader(b))
+	dec.UseNumber()
+	if err := dec.Decode(&f); err != nil {
+		return err
+	}
+	if f.ToolError != "" {
+		return fmt.Errorf("worker tool error: %s", f.ToolError)
+	}
+	r.mu.Lock()
+	defer r.mu.Unlock()
+	for k, v := range f.Coverage {
+		switch k {
+		case "evaluations":
+			n, _ := v.(json.Number).Int64()
+			r.mergedEval += n
+		case "distinct_nontrivial":
+			n, _ := v.(json.Number).Int64()
+			r.mergedNT += n
+		case "exhaustive":
+			if b, ok := v.(bool); ok && !b {
+				r.exhaustive = false
+			}
+		case "caps_hit":
+			if l, ok := v.([]any); ok {
+				for _, x := range l {
+					if len(r.notes) < 20 {
+						r.notes = append(r.notes, fmt.Sprint(x))
+					}
+				}
+			}
+		case "samples":
+			if l, ok := v.([]any); ok {
+				for _, x := range l {
+					if len(r.samples) < 12 {
+						r.samples = append(r.samples, x)
+					}
+				}
+			}
+		case "rule":
+		default:
+			switch x := v.(type) {
+			case json.Number:
+				n, _ := x.Int64()
+				c, _ := r.extra[k].(int64)
+				r.extra[k] = c + n
+			case map[string]any:
+				m, _ := r.extra[k].(map[string]int64)
+				if m == nil {
+					m = map[string]int64{}
+				}
+				for kk, vv := range x {
+					if num, ok := vv.(json.Number); ok {
+						n, _ := num.Int64()
+						m[kk] += n
+					}
+				}
+				r.extra[k] = m
+			default:
+				if _, ok := r.extra[k]; !ok {
+					r.extra[k] = v
+				}
+			}
+		}
+	}
+	for _, v := range f.Viol {
+		if o := r.viol[v.Sig]; o != nil {
+			o.Count += v.Count
+		} else {
+			r.viol[v.Sig] = v
+		}
+	}
+	return nil
+}
+
+// AddMap adds n to entry key of a map-valued coverage counter.
+func (r *R) AddMap(k, key string, n int64) {
+	r.mu.Lock()
+	m, _ := r.extra[k].(map[string]int64)
+	if m == nil {
+		m = map[string]int64{}
+		r.extra[k] = m
+	}
+	m[key] += n
+	r.mu.Unlock()
+}
+
+type byteReader struct {
+	b []byte
+	i int
+}
+
+func (r *byteReader) Read(p []byte) (int, error) {
+	if r.i >= len(r.b) {
+		return 0, io.EOF
+	}
+	n := copy(p, r.b[r.i:])
+	r.i += n
+	return n, nil
+}
+
+func bytesReader(b []byte) *byteReader { return &byteReader{b: b} }
